@@ -16,14 +16,18 @@ type World struct {
 	Guard  *Term // non-nil while the harness builds conditionally present cells
 }
 
+// KV is one store; a cache context's store is an overlay (own cells, possibly
+// tombstones) over the live parent store, flushed key by key on Write.
 type KV struct {
-	cells []*Cell
+	cells  []*Cell
+	parent *KV
 }
 
 type Cell struct {
 	key     []Value
 	val     Value
 	present *Term // nil => certainly present
+	deleted bool  // tombstone in an overlay
 }
 
 func (c *Cell) presentT() *Term {
@@ -45,21 +49,20 @@ func NewWorld() *World { return &World{stores: map[*Value]*KV{}} }
 
 func (w *World) clone() *World {
 	nw := &World{stores: map[*Value]*KV{}, parent: w}
-	for k, kv := range w.stores {
-		nkv := &KV{cells: make([]*Cell, len(kv.cells))}
-		copy(nkv.cells, kv.cells) // cells are immutable once stored
-		nw.stores[k] = nkv
-	}
 	nw.Events = append([]Value{}, w.Events...)
 	return nw
 }
 
-func (w *World) commitTo(parent *World) {
-	// flush a copy: the cache context stays usable (and isolated) after Write, as in the SDK
+// commitTo flushes the dirty cells of every overlay store into its parent
+// store (only the keys written through the cache context, as cachekv does) and
+// empties the overlay, which stays usable.
+func (in *Interp) commitWorld(w, parent *World) {
 	for k, kv := range w.stores {
-		nkv := &KV{cells: make([]*Cell, len(kv.cells))}
-		copy(nkv.cells, kv.cells)
-		parent.stores[k] = nkv
+		pkv := parent.store(k)
+		for _, c := range kv.cells {
+			in.kvApply(pkv, c)
+		}
+		kv.cells = nil
 	}
 	parent.Events = append([]Value{}, w.Events...)
 }
@@ -68,6 +71,9 @@ func (w *World) store(key *Value) *KV {
 	kv, ok := w.stores[key]
 	if !ok {
 		kv = &KV{}
+		if w.parent != nil {
+			kv.parent = w.parent.store(key)
+		}
 		w.stores[key] = kv
 	}
 	return kv
@@ -283,7 +289,8 @@ func sliceArg(v Value) ([]Value, bool) {
 	return s.V, s.V != nil
 }
 
-func (in *Interp) kvFind(kv *KV, key []Value) int {
+// kvFindOwn: index of the cell with this key among the store's own cells.
+func (in *Interp) kvFindOwn(kv *KV, key []Value) int {
 	for i, c := range kv.cells {
 		if in.E.Branch(in.keyEq(c.key, key), "storekey") {
 			return i
@@ -292,15 +299,35 @@ func (in *Interp) kvFind(kv *KV, key []Value) int {
 	return -1
 }
 
+// kvLookup finds the effective cell for key through the overlay chain (nil: absent).
+func (in *Interp) kvLookup(kv *KV, key []Value) *Cell {
+	for s := kv; s != nil; s = s.parent {
+		if i := in.kvFindOwn(s, key); i >= 0 {
+			if s.cells[i].deleted {
+				return nil
+			}
+			return s.cells[i]
+		}
+	}
+	return nil
+}
+
+func (in *Interp) kvHas(kv *KV, key []Value) *Term {
+	c := in.kvLookup(kv, key)
+	if c == nil {
+		return False
+	}
+	return c.presentT()
+}
+
 func (in *Interp) kvGet(kv *KV, key []Value, pos token.Pos) Value {
 	if len(key) == 0 {
 		in.goPanic(pos, "key is nil or empty", nil)
 	}
-	i := in.kvFind(kv, key)
-	if i < 0 {
+	c := in.kvLookup(kv, key)
+	if c == nil {
 		return Slice{}
 	}
-	c := kv.cells[i]
 	v := DeepCopy(c.val)
 	if c.present != nil {
 		if sv, ok := v.(Slice); ok {
@@ -314,6 +341,22 @@ func (in *Interp) kvGet(kv *KV, key []Value, pos token.Pos) Value {
 	return v
 }
 
+// kvApply writes one (possibly tombstone) cell into a store.
+func (in *Interp) kvApply(kv *KV, c *Cell) {
+	i := in.kvFindOwn(kv, c.key)
+	if c.deleted && kv.parent == nil {
+		if i >= 0 {
+			kv.cells = append(kv.cells[:i:i], kv.cells[i+1:]...)
+		}
+		return
+	}
+	if i >= 0 {
+		kv.cells[i] = c
+		return
+	}
+	kv.cells = append(kv.cells, c)
+}
+
 func (in *Interp) kvSet(kv *KV, key []Value, val Value, pos token.Pos) {
 	if len(key) == 0 {
 		in.goPanic(pos, "key is nil or empty", nil)
@@ -325,20 +368,15 @@ func (in *Interp) kvSet(kv *KV, key []Value, val Value, pos token.Pos) {
 	k := make([]Value, len(key))
 	copy(k, key)
 	cell := &Cell{key: k, val: DeepCopy(val)}
-	i := in.kvFind(kv, key)
 	if g := in.World.Guard; g != nil {
-		if i >= 0 {
+		if in.kvLookup(kv, key) != nil {
 			in.unsupp("guarded write over an existing store cell")
 		}
 		cell.present = g
 		kv.cells = append(kv.cells, cell)
 		return
 	}
-	if i >= 0 {
-		kv.cells[i] = cell
-		return
-	}
-	kv.cells = append(kv.cells, cell)
+	in.kvApply(kv, cell)
 }
 
 func (in *Interp) kvDelete(kv *KV, key []Value, pos token.Pos) {
@@ -349,10 +387,35 @@ func (in *Interp) kvDelete(kv *KV, key []Value, pos token.Pos) {
 	if in.World.Guard != nil {
 		in.unsupp("guarded delete")
 	}
-	i := in.kvFind(kv, key)
-	if i >= 0 {
-		kv.cells = append(kv.cells[:i:i], kv.cells[i+1:]...)
+	k := make([]Value, len(key))
+	copy(k, key)
+	in.kvApply(kv, &Cell{key: k, deleted: true})
+}
+
+// kvEffective lists the cells visible through the overlay chain.
+func (in *Interp) kvEffective(kv *KV) []*Cell {
+	if kv.parent == nil {
+		return kv.cells
 	}
+	var out []*Cell
+	for _, c := range kv.cells {
+		if !c.deleted {
+			out = append(out, c)
+		}
+	}
+	for _, pc := range in.kvEffective(kv.parent) {
+		shadowed := false
+		for _, c := range kv.cells {
+			if in.E.Branch(in.keyEq(c.key, pc.key), "storekey") {
+				shadowed = true
+				break
+			}
+		}
+		if !shadowed {
+			out = append(out, pc)
+		}
+	}
+	return out
 }
 
 type kvIter struct {
@@ -393,7 +456,7 @@ func (in *Interp) settle(it *kvIter) bool {
 // kvRange builds an ordered snapshot of the cells selected by sel.
 func (in *Interp) kvRange(kv *KV, sel func(c *Cell) *Term, reverse bool) *kvIter {
 	var items []*Cell
-	for _, c := range kv.cells {
+	for _, c := range in.kvEffective(kv) {
 		if in.E.Branch(sel(c), "iter-select") {
 			// insertion by key order
 			j := len(items)
